@@ -36,6 +36,7 @@ def run(ctx):
     # no cross-talk within the rule's capacity: cells built for another capacity / another checker are never handed to the rule
     from . import rules_C11
     rules_C11.reuse_shape(ctx, f, "hotspot", cfg, R="C06.capacity/reuse-shape")
+    rules_C11.reuse_predicate(ctx, f, "hotspot", cfg, R="C06.capacity/reuse-predicate")
     # which value a request is bucketed under: the keyed parameter has priority over the positional one and is looked up by the rule's
     # (trimmed) key; a wrong extraction buckets traffic of different values together (rules of C05, run here for this property)
     from . import rules_C05
